@@ -57,6 +57,9 @@ class DisplayOracle:
         self.relaxed = None  # reason: from now on only "printed tokens in order"
         self.tags = set()  # known-finding predicates that hold for this run
         self.viol = None  # first violation only
+        self._begin_seq = {}
+        self._hooked_at_begin = {}
+        self._last_write_seq = {}
         self._stages = {}  # tid -> remaining stages of that client's current operation
         self._ops = {}
         self._wtid = None  # thread whose write is being judged
@@ -72,6 +75,25 @@ class DisplayOracle:
         self._ellipsis = None
         self.tracker = None  # SpanTracker, when the run may meet the overlapping-spans finding
         self._cur_write = None
+
+    def watch_hooks(self, console):
+        """Flip `hooked` exactly when the render hook is pushed / popped (instance-level wrappers
+        around the public Console.push_render_hook / pop_render_hook)."""
+        push, pop = console.push_render_hook, console.pop_render_hook
+        oracle = self
+
+        def push_(hook):
+            r = push(hook)
+            oracle.hooked = True
+            return r
+
+        def pop_():
+            r = pop()
+            oracle.hooked = False
+            return r
+
+        console.push_render_hook = push_
+        console.pop_render_hook = pop_
 
     # -- per-thread operation state -------------------------------------------
     def _tid(self):
@@ -156,7 +178,11 @@ class DisplayOracle:
         if k == "print":
             c2 = committed + nonblank(st[1])
             if self.hooked:
-                return [(c2, fr) for fr in self.frames_now("print")]
+                outs = [(c2, fr) for fr in self.frames_now("print")]
+                if not self._hooked_at_begin.get(self._tid(), True) and not frame:
+                    # the print began before the display was started: it may never have met the hook
+                    outs.append((c2, frame))
+                return outs
             return [(c2, frame)]
         if k == "frame":
             if not self.hooked:
@@ -181,7 +207,7 @@ class DisplayOracle:
                     for o in self._apply(st, c, f):
                         if o not in nxt:
                             nxt.append(o)
-                states = nxt[:6]
+                states = nxt[:32]
                 outs.extend((c, f, st[0], n) for c, f in states)
                 if upto is not None and n >= upto:
                     break
@@ -193,10 +219,25 @@ class DisplayOracle:
         self.op = op
         self.stages = list(stages)
         self._fcache = {}
+        tid = self._tid()
+        self._begin_seq[tid] = self.sim.seq
+        self._hooked_at_begin[tid] = self.hooked
+
+    def span_begin(self):
+        """Sequence number at which the operation (or, for a helper thread, the refresh cycle)
+        whose write is being judged began: a frame it draws may show any renderable that was
+        current at some moment since then (render and write are separate steps)."""
+        tid = self._tid()
+        if tid in self.client_tids:
+            return self._begin_seq.get(tid, 0)
+        return self._last_write_seq.get(tid, 0)
 
     def end_op(self):
         """Every stage of the op must have happened by now."""
         self._fcache = {}
+        if self.stages and (not self._hooked_at_begin.get(self._tid(), True) or not self.hooked):
+            # a refresh that ran while no hook was installed legitimately writes nothing
+            self.stages = [st for st in self.stages if st[0] != "frame"]
         if self.viol is None and not self.relaxed and not self.stop_checks and self.stages:
             n = len(self.stages)
             finals = [o for o in self._outcomes(True) if o[3] == n]
@@ -262,6 +303,7 @@ class DisplayOracle:
             self._on_write2(seq, tid, text)
         finally:
             self._wtid = None
+            self._last_write_seq[tid] = seq
 
     def _on_write2(self, seq, tid, text):
         self.writes += 1
@@ -282,6 +324,15 @@ class DisplayOracle:
             return
         is_client = tid in self.client_tids
         outs = self._outcomes(is_client)
+        # a write that carries text or an erase is a content write: it is matched against the
+        # next stages first; a control-only write (cursor visibility, newline) must leave the
+        # rows unchanged.  (Matching "nothing changed" first would leave a refresh that redrew
+        # an identical frame pending until end_op, when the candidates may have moved on.)
+        content = any(t[0] == "text" or (t[0] == "csi" and t[2] in "KJ") for t in term.tokens(text))
+        if content:
+            outs = outs[1:] + outs[:1]
+        else:
+            outs = outs[:1]
         matched = None
         for c, f, note, adv in outs:
             if self.expected(c, f) == self.actual(len(c), bool(f and nonblank(f))):
@@ -362,6 +413,7 @@ class SpanTracker:
     def __init__(self, sim, console):
         self.sim = sim
         self.open = {}  # tid -> seq at which its span opened
+        self.entry = {}  # tid -> seq at which its current writing operation was entered
         self.in_stop = set()
         self.events = []  # (seq, tid, kind)
         self.installed = False
@@ -423,11 +475,19 @@ class SpanTracker:
     def start_event(self):
         self.note("display-start")
 
+    def print_begin(self):
+        """Entry of a writing operation: a print that never meets the hook (it started before
+        push_render_hook) has no hook evaluation; its span starts here instead."""
+        tid = self._tid()
+        self.entry[tid] = self.sim.event("op-enter")
+
     def overlap(self, seq, tid):
         """Is the write (seq, tid) explained by overlapping critical spans?  Call before write_done."""
         if not self.installed:
             return False
         s = self.open.get(tid)
+        if s is None:
+            s = self.entry.get(tid)
         if s is not None:
             for eseq, etid, kind in self.events:
                 if etid != tid and s < eseq < seq:
@@ -441,3 +501,4 @@ class SpanTracker:
         self.events.append((seq, tid, "write"))
         if tid not in self.in_stop:
             self.open.pop(tid, None)
+            self.entry.pop(tid, None)
